@@ -12,7 +12,9 @@ open Xjs
 /-- what the parser reads of a token: its type and literal -/
 abbrev Key := TokType × Bytes
 
-def key3 (r : Token × LS) : Key × Bytes := ((r.1.type, r.1.lit), r.2.rest)
+/-- type and literal of the token, the text left, and the two fields that record trivia in front of it (after-newline
+    flag, leading comments) -/
+def key3 (r : Token × LS) : Key × Bytes × Bool × List Bytes := ((r.1.type, r.1.lit), r.2.rest, r.1.nl, r.1.comments)
 
 theorem cur_eq (s : LS) : s.cur = s.rest.headD 0 := rfl
 theorem peek_eq (s : LS) : s.peek = s.rest.tail.headD 0 := rfl
@@ -144,10 +146,10 @@ theorem nextToken_blank (s : LS) (b : Bytes) (h : s.rest = 32 :: b) : nextToken 
 /-! ## the relation "this text lexes to these keys" -/
 
 /-- `LexTo b ks r`: from any cursor standing at the text `b`, successive token requests return tokens with the keys
-    `ks` (none of them end of input), and what is left then is `r`, possibly behind some blanks -/
+    `ks` (none of them end of input; each without a line break or a comment in front of it), and what is left then is `r`, possibly behind some blanks -/
 inductive LexTo : Bytes → List Key → Bytes → Prop
   | done (n : Nat) (r : Bytes) : LexTo (List.replicate n 32 ++ r) [] r
-  | tok {b b' r : Bytes} {k : Key} {ks : List Key} (h : ∀ s : LS, s.rest = b → key3 (nextToken s) = (k, b'))
+  | tok {b b' r : Bytes} {k : Key} {ks : List Key} (h : ∀ s : LS, s.rest = b → key3 (nextToken s) = (k, b', false, []))
       (hk : k.1 ≠ .eof) (rest : LexTo b' ks r) : LexTo b (k :: ks) r
 
 theorem LexTo.refl (r : Bytes) : LexTo r [] r := LexTo.done 0 r
@@ -189,7 +191,7 @@ theorem LexTo.append {b : Bytes} {ks : List Key} {m : Bytes} (h : LexTo b ks m) 
 
 /-- one more token at the end -/
 theorem LexTo.snoc {b : Bytes} {ks : List Key} {m r : Bytes} {k : Key} (h : LexTo b ks m)
-    (hm : ∀ s : LS, s.rest = m → key3 (nextToken s) = (k, r)) (hk : k.1 ≠ .eof) : LexTo b (ks ++ [k]) r :=
+    (hm : ∀ s : LS, s.rest = m → key3 (nextToken s) = (k, r, false, [])) (hk : k.1 ≠ .eof) : LexTo b (ks ++ [k]) r :=
   h.append (LexTo.tok hm hk (LexTo.refl r))
 
 /-! ## words: identifiers and keywords -/
@@ -216,7 +218,7 @@ def folWord (r : Bytes) : Bool := !isWordByte (r.headD 0)
 /-- a word, followed by something that is no word byte, is read back as that word, classified by the keyword table -/
 theorem word_lexes (w r : Bytes) (c : Nat) (w' : Bytes) (hw : w = c :: w') (hc : isLetter c = true)
     (hall : ∀ x ∈ w, isWordByte x = true) (hr : folWord r = true) (s : LS) (hs : s.rest = w ++ r) :
-    key3 (nextToken s) = ((lookupIdent w, w), r) := by
+    key3 (nextToken s) = ((lookupIdent w, w), r, false, []) := by
   have hws : isWs c = false := by
     unfold isLetter at hc; unfold isWs
     simp only [Bool.or_eq_true, Bool.and_eq_true, decide_eq_true_eq, beq_iff_eq] at hc
@@ -263,7 +265,7 @@ def fol (ty : TokType) (r : Bytes) : Bool :=
   | _ => true
 
 theorem fixed_lexes (ty : TokType) (hf : canon ty ≠ []) (r : Bytes) (hfol : fol ty r = true) (s : LS)
-    (hs : s.rest = canon ty ++ r) : key3 (nextToken s) = ((ty, canon ty), r) := by
+    (hs : s.rest = canon ty ++ r) : key3 (nextToken s) = ((ty, canon ty), r, false, []) := by
   cases ty
   all_goals first
     | exact absurd rfl hf
@@ -285,7 +287,7 @@ def identOk (w : Bytes) : Bool :=
   | c :: _ => isLetter c && w.all isWordByte && lookupIdent w == .ident
 
 theorem ident_lexes (w r : Bytes) (hw : identOk w = true) (hr : fol .ident r = true) (s : LS) (hs : s.rest = w ++ r) :
-    key3 (nextToken s) = ((.ident, w), r) := by
+    key3 (nextToken s) = ((.ident, w), r, false, []) := by
   cases w with
   | nil => cases hw
   | cons c w' =>
@@ -300,7 +302,7 @@ def numOk (w : Bytes) (ty : TokType) : Prop :=
   isDigit (w.headD 0) = true ∧ ∀ r, fol .int r = true → scanNumber (w ++ r) = (w.length, ty)
 
 theorem num_lexes (w r : Bytes) (ty : TokType) (hw : numOk w ty) (hr : fol .int r = true) (s : LS) (hs : s.rest = w ++ r) :
-    key3 (nextToken s) = ((ty, w), r) := by
+    key3 (nextToken s) = ((ty, w), r, false, []) := by
   obtain ⟨hd, hsc⟩ := hw
   cases w with
   | nil => exact absurd hd (by decide)
@@ -321,7 +323,7 @@ theorem num_lexes (w r : Bytes) (ty : TokType) (hw : numOk w ty) (hr : fol .int 
 def strOk (v : Bytes) : Prop := ∀ r, scanString 34 (v ++ 34 :: r).length (v ++ 34 :: r) [] 0 = (v, v.length)
 
 theorem str_lexes (v r : Bytes) (hv : strOk v) (s : LS) (hs : s.rest = 34 :: (v ++ 34 :: r)) :
-    key3 (nextToken s) = ((.string, v), r) := by
+    key3 (nextToken s) = ((.string, v), r, false, []) := by
   rw [nextToken_of_trivia s (by rw [hs]; exact trivia_stop 34 _ (by decide) (by decide))]
   unfold baseNextToken
   simp only [cur_eq, peek_eq, hs, List.headD_cons, List.tail_cons]
@@ -342,7 +344,7 @@ theorem str_lexes (v r : Bytes) (hv : strOk v) (s : LS) (hs : s.rest = 34 :: (v 
 def rawOk (v : Bytes) : Prop := ∀ r, scanRaw (escBackticks v ++ 96 :: r) [] 0 = (v, (escBackticks v).length)
 
 theorem raw_lexes (v r : Bytes) (hv : rawOk v) (s : LS) (hs : s.rest = 96 :: (escBackticks v ++ 96 :: r)) :
-    key3 (nextToken s) = ((.rawString, v), r) := by
+    key3 (nextToken s) = ((.rawString, v), r, false, []) := by
   rw [nextToken_of_trivia s (by rw [hs]; exact trivia_stop 96 _ (by decide) (by decide))]
   unfold baseNextToken
   simp only [cur_eq, peek_eq, hs, List.headD_cons, List.tail_cons]
